@@ -1,0 +1,40 @@
+//go:build verif
+
+package block
+
+// Machine-checked contracts for /verif/govc (contract-based deductive verification).
+// This file contains comments only; it is compiled only with -tags verif and adds no code.
+//
+// Frames of the block methods the round's notarized-block bookkeeping calls (C35): none of them
+// changes a block's hash, round or rank.
+
+//@ func (*Block).SetBlockNotarized
+//@   prop C35
+//@   requires b != nil && held(b.ticketsMutex) == 0 && rheld(b.ticketsMutex) == 0
+//@   ensures b.isNotarized
+//@   modifies b.isNotarized
+//@   lock-balanced b.ticketsMutex
+
+//@ func (*Block).SetBlockState
+//@   prop C35
+//@   requires b != nil
+//@   ensures b.blockState == blockState
+//@   modifies b.blockState
+
+// Ticket merging / copying only touches the verification tickets (loops over tickets: trusted frame).
+//@ func (*Block).GetVerificationTickets
+//@   trusted
+//@   modifies nothing
+
+//@ func (*Block).MergeVerificationTickets
+//@   trusted
+//@   modifies b.VerificationTickets
+
+// 2^-RoundRank (float loop): trusted, reads only.
+//@ func (*Block).Weight
+//@   trusted
+//@   modifies nothing
+
+//@ func (*Block).GetRoundRandomSeed
+//@   trusted
+//@   modifies nothing
